@@ -40,7 +40,7 @@ FEAT = dict(
     n_monitors=(0, 1), n_agents=(1, 2), depth=2, block_len=(1, 3), max_steps=(2, 6),
     w_try=0, w_do=1, w_do_for=1, w_do_until=1, w_while=0, w_loop=1, w_if=1,
     p_termwhen=1, p_termsimwhen=1, p_termafter=1, p_ltl=0, p_record=1, w_require=0,
-    w_terminate=1, w_terminatesim=0,
+    w_terminate=1, w_terminatesim=0, p_until_random=3,
 )
 
 prepare = dyncommon.prepare
